@@ -56,6 +56,8 @@ Proof.
   - induction kv as [|[k v] kv IHl]; [reflexivity|]. cbn [fold_right fst snd]. apply s_app_no_rows; [apply IH | exact IHl].
 Qed.
 
+Ltac nope := let X := fresh in intros X; discriminate X.
+
 Section WalkFacts.
   Variable E : env.
   Variable T : trust.
@@ -66,63 +68,80 @@ Section WalkFacts.
   Definition row_of (h : hdr) (n : node) (r : row) : Prop :=
     self_safe E T h = Ok (r_self_safe r)
     /\ (h_kind h <> KJson -> (r_safe r = true <-> unsafe E T root n = Ok []))
+    /\ (h_kind h = KJson -> r_safe r = true)
     /\ node_format h = Ok (r_val r).
 
   (* the first row a node yields sits at the requested level and carries the audit's own verdicts *)
-  Lemma walk_first fuel : forall path name level last n r rs,
-    fst (walk E T skipped root fuel path name level last n) = r :: rs ->
-    r_level r = level /\ r_key r = name /\ r_last r = last /\
-    exists h subs, (n = Node h subs \/ exists sl id, n = Ref sl id /\ find_id id root <> None) /\
-                   exists h' n', row_of h' n' r.
+  Lemma walk_first_node fuel path name level last h subs r rs :
+    fst (walk E T skipped root fuel path name level last (Node h subs)) = r :: rs ->
+    r_level r = level /\ r_key r = name /\ r_last r = last /\ row_of h (Node h subs) r.
   Proof.
-    induction fuel as [|fuel IH]; intros path name level last n r rs H; [discriminate|].
-    cbn [walk] in H. destruct n as [h subs|sl id|sl l].
-    - destruct (pstr_eqb name key_types_name).
-      { destruct (h_kind h); try discriminate. unfold s_lift in H.
-        destruct (unsafe E T root (Node h subs)) as [[|]|]; discriminate. }
-      unfold s_lift in H.
-      destruct (node_format h) as [val|e] eqn:NF; [|discriminate].
-      destruct (self_safe E T h) as [ss|e] eqn:SS; [|discriminate].
-      destruct (match h_kind h with KJson => Ok [] | _ => unsafe E T root (Node h subs) end) as [u|e] eqn:U; [|discriminate].
-      cbn [s_cons fst] in H. injection H as <- _. cbn.
-      split; [reflexivity|]. split; [reflexivity|]. split; [reflexivity|].
-      exists h, subs. split; [left; reflexivity|]. exists h, (Node h subs). unfold row_of. cbn.
-      split; [exact SS|]. split; [|exact NF].
-      intros NJ. destruct (h_kind h); try contradiction; rewrite U; destruct u; split; intros X; try reflexivity; try discriminate.
-    - destruct (find_id id root) as [target|] eqn:F; [|discriminate].
-      destruct (IH _ _ _ _ _ _ _ H) as [A [B [C [h [subs [_ D]]]]]].
-      split; [exact A|]. split; [exact B|]. split; [exact C|].
-      exists h, subs. split; [right; exists sl, id; split; [reflexivity | congruence]|]. exact D.
-    - destruct l; try (destruct (pstr_eqb name key_types_name); discriminate).
-      rewrite walk_raw_no_rows in H. discriminate.
+    destruct fuel as [|fuel]; [nope|]. cbn [walk].
+    destruct (pstr_eqb name key_types_name).
+    { destruct (h_kind h); try nope. unfold s_lift.
+      destruct (unsafe E T root (Node h subs)) as [[|]|]; nope. }
+    unfold s_lift.
+    destruct (node_format h) as [val|e] eqn:NF; [|nope].
+    destruct (self_safe E T h) as [ss|e] eqn:SS; [|nope].
+    destruct (kind_eqb (h_kind h) KJson) eqn:KJ.
+    - assert (K : h_kind h = KJson) by (destruct (h_kind h); try discriminate; reflexivity).
+      rewrite K. cbn [s_cons fst]. intros H. injection H as <- _. cbn [r_level r_key r_last r_self_safe r_safe r_val].
+      split; [reflexivity|]. split; [reflexivity|]. split; [reflexivity|]. unfold row_of; cbn [r_level r_key r_last r_self_safe r_safe r_val].
+      split; [exact SS|]. split; [intros NJ; contradiction|]. split; [reflexivity | exact NF].
+    - assert (U : (match h_kind h with KJson => Ok [] | _ => unsafe E T root (Node h subs) end) = unsafe E T root (Node h subs))
+        by (destruct (h_kind h); try reflexivity; discriminate).
+      rewrite U. destruct (unsafe E T root (Node h subs)) as [u|e] eqn:UU; [|nope].
+      cbn [s_cons fst]. intros H. injection H as <- _. cbn [r_level r_key r_last r_self_safe r_safe r_val].
+      split; [reflexivity|]. split; [reflexivity|]. split; [reflexivity|]. unfold row_of; cbn [r_level r_key r_last r_self_safe r_safe r_val].
+      rewrite ?UU. split; [exact SS|]. split; [|split; [|exact NF]].
+      + intros _. destruct u; split; intros X; try reflexivity; try discriminate X.
+      + intros K. rewrite K in KJ. discriminate KJ.
+  Qed.
+  Lemma walk_ref_none fuel path name level last sl id :
+    find_id id root = None -> fst (walk E T skipped root fuel path name level last (Ref sl id)) = [].
+  Proof. intros F. destruct fuel; [reflexivity|]. cbn [walk]. rewrite F. reflexivity. Qed.
+
+  Lemma walk_leaf_none fuel path name level last sl l :
+    fst (walk E T skipped root fuel path name level last (Leaf sl l)) = [].
+  Proof.
+    destruct fuel; [reflexivity|]. cbn [walk].
+    destruct l; try (destruct (pstr_eqb name key_types_name); reflexivity). apply walk_raw_no_rows.
   Qed.
 End WalkFacts.
+
+Lemma unsafe_g_json E T root fuel path h subs :
+  h_kind h = KJson -> unsafe_g E T root (S fuel) path (Node h subs) = Ok [].
+Proof. intros K. cbn [unsafe_g]. rewrite K. reflexivity. Qed.
+
+Lemma unsafe_fuel_S : unsafe_fuel = S (Nat.pred unsafe_fuel).
+Proof. reflexivity. Qed.
+Opaque walk_fuel unsafe_fuel.
 
 (* the root row is fully safe exactly when get_untrusted_types (for that trust setting) is empty *)
 Theorem root_safe_iff E skipped schema T st r rs :
   visualize_stream E skipped schema T = Ok st -> fst st = r :: rs ->
   exists t m, root_tree E schema = Ok (t, m) /\
-    (r_safe r = true <-> untrusted_of E T t = Ok []).
+    r_level r = O /\ (r_safe r = true <-> untrusted_of E T t = Ok []).
 Proof.
-  unfold visualize_stream. destruct (root_tree E schema) as [[t m]|e]; [|discriminate].
+  unfold visualize_stream. destruct (root_tree E schema) as [[t m]|e]; [|nope].
   cbn [bind]. intros H; injection H as <-. intros F. exists t, m. split; [reflexivity|].
-  unfold walk_fuel in F. cbn [walk] in F. destruct t as [h subs|sl id|sl l].
-  - replace (pstr_eqb (s "root") key_types_name) with false in F by reflexivity.
-    unfold s_lift in F.
-    destruct (node_format h) as [val|e]; [|discriminate].
-    destruct (self_safe E T h) as [ss|e]; [|discriminate].
-    unfold untrusted_of.
-    destruct (h_kind h) eqn:K.
-    all: try (destruct (unsafe E T (Node h subs) (Node h subs)) as [u|e] eqn:U; [|discriminate];
-              cbn [s_cons fst] in F; injection F as <- _; cbn; cbn [bind];
-              destruct u; split; intros X; try reflexivity; try discriminate;
-              exfalso; injection X as X; apply sort_dedup_nil_iff in X; discriminate).
-    (* KJson root: always safe, and its unsafe set is empty *)
-    cbn [s_cons fst] in F. injection F as <- _. cbn.
-    unfold unsafe, unsafe_fuel. cbn [unsafe_g]. rewrite K. cbn. split; reflexivity.
-  - (* a Ref at the root: the memo is empty, get_tree never returns one *)
-    destruct (find_id id (Ref sl id)); discriminate.
-  - destruct l; try discriminate. cbn [walk] in F. rewrite walk_raw_no_rows in F. discriminate.
+  destruct t as [h subs|sl id|sl l].
+  - destruct (walk_first_node _ _ _ _ _ _ _ _ _ _ _ _ _ F) as [A [_ [_ [_ [B [C _]]]]]].
+    split; [exact A|]. unfold untrusted_of.
+    destruct (kind_eqb (h_kind h) KJson) eqn:KJ.
+    + assert (K : h_kind h = KJson) by (destruct (h_kind h); try discriminate; reflexivity).
+      assert (U : unsafe E T (Node h subs) (Node h subs) = Ok []).
+      { unfold unsafe. rewrite unsafe_fuel_S. apply unsafe_g_json. exact K. }
+      rewrite U. cbn [bind]. split; [reflexivity|]. intros _. exact (C K).
+    + assert (NJ : h_kind h <> KJson) by (intros X; rewrite X in KJ; discriminate).
+      specialize (B NJ).
+      destruct (unsafe E T (Node h subs) (Node h subs)) as [u|e]; cbn [bind].
+      * split; intros X.
+        -- apply B in X. injection X as ->. reflexivity.
+        -- injection X as X. apply -> sort_dedup_nil_iff in X. subst. apply B. reflexivity.
+      * split; intros X; [apply B in X|]; discriminate X.
+  - rewrite walk_ref_none in F by reflexivity. discriminate F.
+  - rewrite walk_leaf_none in F. discriminate F.
 Qed.
 
 (* labels: a row is tagged unsafe exactly when its own type is not trusted *)
